@@ -15,4 +15,14 @@ def copyFresh : Bool := true
     `node.model` is concerned -/
 def swapIR : List SStmt := [.other, .other, .other, .other, .other, .saveBase, .tryFinally [.setTarget, .emit] [.restoreBase], .other, .other]
 
+/-- the decision of `spox._adapt.adapt_inline` as written (normalised source text of every expression it
+    is made of): where the target and source versions come from, which guards return the build's
+    nodes unconverted, which guard calls the converter, how many `return protos` there are -/
+def adaptShape : List (String × String) := [("params", "node, protos, target_opsets, var_names, node_name"), ("target_version", "target_opsets['']"), ("source_version", "max({imp.version for imp in node.model.opset_import if imp.domain in ('', 'ai.onnx')}, default=target_version)"), ("seen_domains", "{prot.domain for prot in protos}"), ("keep-if", "not seen_domains & {'', 'ai.onnx'}"), ("convert-if", "source_version != target_version"), ("convert-call", "onnx.version_converter.convert_version(node.model, target_version)"), ("return-unconverted", "line-order 0"), ("return-unconverted", "line-order 1"), ("returns", "3"), ("loops-or-nested-defs", "0")]
+
+/-- inventory of class `spox._inline._Inline` (methods, properties, class-level attributes, nested classes)
+    and of every attribute WRITE on the node object in `_Inline`'s methods and in `adapt_inline`
+    (`<function>:<attribute>`): a new override, cache or class-level attribute shows up here -/
+def inlineMembers : List String := ["attr:attrs", "attr:inputs", "attr:model", "attr:op_type=", "attr:outputs", "bases:_InternalNode", "class:Attributes", "class:Inputs", "class:Outputs", "def:graph@property", "def:infer_output_types", "def:opset_req@property", "def:pre_init", "def:propagate_values", "def:to_onnx", "write:adapt_inline:model", "write:pre_init:model"]
+
 end Generated.InlineFacts
